@@ -634,3 +634,21 @@ Definition example_source : src := mk_src (qq 4 5) (qq 9 40) (qq 81 100) (qq 1 4
 Lemma example_admissible : admissible example_source.
 Proof. unfold admissible, example_source. cbn [px g2 ind losses rt si].
   repeat split; try (apply Qc_is_canon; reflexivity); try (vm_compute; reflexivity); try (vm_compute; discriminate). Qed.
+
+(* ------------------------------------------------------------------ the table cache never serves a stale table *)
+Definition cache_ok (P : src) (c : option tcache) : Prop :=
+  match c with None => True | Some k => tc_val k = prob_table P (tc_n k) (tc_f k) end.
+Lemma cache_request_ok P c n f : cache_ok P c ->
+  let k := cache_request P c n f in tc_n k = n /\ tc_f k = f /\ tc_val k = prob_table P n f.
+Proof.
+  intros H. unfold cache_request. destruct c as [k|]; [|cbn; auto].
+  destruct ((tc_n k =? n)%nat && (tc_f k =? f)%nat) eqn:E; [|cbn; auto].
+  apply Bool.andb_true_iff in E. destruct E as [E1 E2]. apply Nat.eqb_eq in E1, E2. cbn in H. subst. auto.
+Qed.
+Lemma cache_run_ok P h : forall c, cache_ok P c -> cache_ok P (cache_run P c h).
+Proof. induction h as [|[n f] h IH]; intros c H; cbn [cache_run]. exact H.
+  apply IH. cbn. destruct (cache_request_ok P c n f H) as (E1 & E2 & E3). rewrite E3, E1, E2. reflexivity. Qed.
+(* after ANY history of calls on one Source, the table used for (n, f) is the table of (n, f) *)
+Theorem cache_history_independent P h n f :
+  tc_val (cache_request P (cache_run P None h) n f) = prob_table P n f.
+Proof. apply cache_request_ok, cache_run_ok. exact Logic.I. Qed.
